@@ -373,6 +373,9 @@ pub struct ConfigOpts {
     pub multithread: Option<bool>,
     /// maximum Rice parameter floor (to bound unary blow-ups)
     pub min_max_parameter: usize,
+    /// never draw the experimental estimators, whatever the build (C20's corpus must be the same
+    /// in every feature set, and is about configurations that do not enable them)
+    pub no_experimental: bool,
 }
 
 pub fn tukey_alpha(rng: &mut Rng) -> f32 {
@@ -455,7 +458,7 @@ pub fn gen_config(rng: &mut Rng, opts: &ConfigOpts) -> config::Encoder {
     // pass `exp`: the harness is built with the library's `experimental` feature, where the
     // direct-MSE and IRLS-MAE estimators are accepted by verification (no random draw otherwise,
     // so the other builds see the same configurations as before)
-    if experimental_compiled_in() && rng.chance(2, 3) {
+    if experimental_compiled_in() && !opts.no_experimental && rng.chance(2, 3) {
         sf.qlpc.use_direct_mse = true;
         if rng.flip() {
             sf.qlpc.mae_optimization_steps = *rng.pick(&[1usize, 1, 2, 3, 5, 8, 20]);
